@@ -215,6 +215,48 @@ theorem netbios_roundtrip (data : Bytes) (off : Int) (h0 : 0 ≤ off) (h1 : off 
   obtain ⟨e, he⟩ := netbios_encode_total data off h0 h1
   rw [he]; exact netbios_decode_encode data off e he
 
+/-- The big-integer formulation used by `utils.xor` computes exactly the byte-wise model. -/
+theorem xorBig_eq_xor (d k : Bytes) : xorBig d k = xor d k := by
+  unfold xorBig xor
+  split
+  · rfl
+  · rename_i hz
+    have hk : k ≠ [] := by rintro rfl; simp at hz
+    have hlen := tile_length k d.length hk
+    rw [toLE_xor_fromLE d _ hlen.symm]
+    apply List.ext_getElem
+    · simp [xorCore, hlen]
+    · intro i h1 h2
+      simp only [List.getElem_zipWith, xorCore, List.getElem_mapIdx]
+      rw [tile_getElem k d.length i hk]
+
+/-- For every requested length ≥ 3 an x86 stager URI over alphanumerics exists, so the generation loop can terminate. -/
+theorem stager_x86_exists (n : Nat) (hn : 3 ≤ n) :
+    ∃ uri : Txt, uri.length = n + 1 ∧ uri.head? = some 47 ∧ (∀ c ∈ uri.tail, isAlnum c = true) ∧ isStagerX86 uri = true := by
+  by_cases h3 : n = 3
+  · subst h3
+    exact ⟨[47, 122, 122, 104], by decide, by decide, by decide, by decide⟩
+  · obtain ⟨a, b, c, d, ha, hb, hc, hd, hs⟩ :=
+      four_alnum ((92 + 256 - (48 * (n - 4)) % 256) % 256) (Nat.mod_lt _ (by decide))
+    refine ⟨47 :: (List.replicate (n - 4) 48 ++ [a, b, c, d]), by simp; omega, rfl, ?_, ?_⟩
+    · intro x hx
+      simp only [List.tail_cons, List.mem_append, List.mem_replicate, List.mem_cons, List.not_mem_nil, or_false] at hx
+      rcases hx with ⟨_, rfl⟩ | rfl | rfl | rfl | rfl
+      · decide
+      all_goals assumption
+    · rw [isStagerX86_iff]
+      refine ⟨by simp, ?_⟩
+      have h1 := alnum_ne_slash ha
+      have h2 := alnum_ne_slash hb
+      have h3 := alnum_ne_slash hc
+      have h4 := alnum_ne_slash hd
+      simp [List.filter_append, h1, h2, h3, h4]
+      omega
+
+/-- An x64 stager URI (four alphanumerics) exists. -/
+theorem stager_x64_exists : ∃ uri : Txt, uri.length = 5 ∧ isStagerX64 uri = true :=
+  ⟨[47, 122, 122, 57, 48], by decide, by decide⟩
+
 /-! Non-vacuity: concrete inputs meeting the hypotheses. -/
 example : xor [1, 2, 3, 4, 5] [0xff, 0] = [0xfe, 2, 0xfc, 4, 0xfa] := by decide
 example : netbiosEncode [0xab, 0x01] 0x41 = .ok [0x4b, 0x4c, 0x41, 0x42] := by decide
